@@ -23,6 +23,9 @@ type c03hdrStore struct {
 	lhs    ast.Expr
 	call   *ast.CallExpr // nil if the right-hand side is not a call
 	callee *types.Func   // module function producing the header (nil otherwise)
+	rhs    ast.Expr
+	local  types.Object // the header function was inlined: the local clone that is stored
+	src    ast.Expr     // … and the header it was cloned from
 }
 
 // c03Header resolves the outbound-header stores of the proxy package, decides R-C03-1..3 on
@@ -50,7 +53,7 @@ func c03Header(c *core.Ctx) {
 				if c03fieldOf(f, l) != reqHeader {
 					continue
 				}
-				s := &c03hdrStore{f: f, assign: as, lhs: l}
+				s := &c03hdrStore{f: f, assign: as, lhs: l, rhs: as.Rhs[i]}
 				if call, ok := ast.Unparen(as.Rhs[i]).(*ast.CallExpr); ok {
 					s.call = call
 					if fo, ok := f.Callee(call).(*types.Func); ok && c03declOf(c, fo) != nil {
@@ -69,6 +72,30 @@ func c03Header(c *core.Ctx) {
 	for _, s := range stores {
 		cons := c03fnName(s.f) + "|outbound header"
 		if s.callee == nil {
+			// the header function inlined into the builder: a local Clone() that is stripped in
+			// place and then stored
+			if id, ok := ast.Unparen(s.rhs).(*ast.Ident); ok {
+				o := c03obj(s.f, id)
+				defs := c03defs(s.f, o)
+				okClone := len(defs) > 0
+				for _, d := range defs {
+					op, recv := "", ast.Expr(nil)
+					if d.call != nil && d.rhs != nil {
+						op, recv = c03hdrOp(s.f, d.call)
+					}
+					if op != "Clone" {
+						okClone = false
+					} else {
+						s.src = recv
+					}
+				}
+				if okClone {
+					s.local = o
+					c.Discharge("R-C03-1", cons, pos(c, s.assign), "Header = a local Clone() stripped in the builder itself")
+					c03HeaderInline(c, s)
+					continue
+				}
+			}
 			c.Violate("R-C03-1", cons, pos(c, s.assign),
 				"the outbound request's Header is not produced by a hop-by-hop stripping function of the module: Connection, Keep-Alive, Upgrade … and every header named by Connection reach the backend (and the inbound header map may be shared)")
 			continue
@@ -437,6 +464,12 @@ func (a *c03hdrAnalysis) table(f *flow.Func, x ast.Expr) ([]string, bool) {
 // unit analyses one function whose header variables H denote the outbound header and
 // returns the events that hold on all / some return exits.
 func (a *c03hdrAnalysis) unit(f *flow.Func, H map[types.Object]bool, depth int) *c03hdrSum {
+	return a.unitAt(f, H, depth, nil)
+}
+
+// unitAt: as unit, but only the return exits that passed node `at` (the store of the header
+// when the stripping is done inline in the builder) are considered.
+func (a *c03hdrAnalysis) unitAt(f *flow.Func, H map[types.Object]bool, depth int, at ast.Node) *c03hdrSum {
 	c := a.c
 	name := c03fnName(f)
 	isH := func(e ast.Expr) bool { return H[c03rootOf(f, e)] }
@@ -451,6 +484,7 @@ func (a *c03hdrAnalysis) unit(f *flow.Func, H map[types.Object]bool, depth int) 
 		idents  map[types.Object]*ast.Ident
 		del     *ast.CallExpr
 		chain   *c03chain // rs … innermost loop enclosing the listed Del
+		escapes bool      // tokens are stored in a variable declared outside the loop
 	}
 	var conns []*connLoop
 	for _, lp := range c03loops(f, f.Body) {
@@ -542,6 +576,9 @@ func (a *c03hdrAnalysis) unit(f *flow.Func, H map[types.Object]bool, depth int) 
 		for o := range cl.tainted {
 			if !elemObjs[o] {
 				derived[o] = true
+				if o.Pos() < lp.stmt.Pos() || o.Pos() > lp.stmt.End() {
+					cl.escapes = true
+				}
 			}
 		}
 		for _, call := range calls(lp.body, false) {
@@ -651,6 +688,14 @@ func (a *c03hdrAnalysis) unit(f *flow.Func, H map[types.Object]bool, depth int) 
 	}
 	res := analyze(c, f, flow.Config{
 		NoHavoc: true,
+		AfterAssume: func(st *flow.State, cond ast.Expr, outcome bool) {
+			// a guard hoisted out of the loop: with no Connection values there is nothing to delete
+			for _, cl := range conns {
+				if cl.del != nil && c03emptyColl(f, st, cl.lp.coll) {
+					st.Set(c03evListed, flow.True)
+				}
+			}
+		},
 		OnBlock: func(st *flow.State, b *cfg.Block) {
 			for _, t := range tables {
 				t.it.block(st, b)
@@ -670,6 +715,9 @@ func (a *c03hdrAnalysis) unit(f *flow.Func, H map[types.Object]bool, depth int) 
 			}
 		},
 		OnNode: func(st *flow.State, n ast.Node) {
+			if at != nil && n == at {
+				st.Set("ev:at", flow.True)
+			}
 			for _, cl := range conns {
 				if n == cl.readAt && cl.fromH && connDeleted(st) {
 					st.Set(c03evBadOrder, flow.True)
@@ -732,6 +780,10 @@ func (a *c03hdrAnalysis) unit(f *flow.Func, H map[types.Object]bool, depth int) 
 	}
 	for _, cl := range conns {
 		cons := name + "|every Connection token deleted"
+		if cl.del == nil && cl.escapes {
+			c.Undecide("R-C03-2", cons, pos(c, cl.rs), "the tokens of the Connection values are collected in a variable that outlives the loop; their later deletion is not followed")
+			continue
+		}
 		if cl.del == nil {
 			c.Violate("R-C03-2", cons, pos(c, cl.rs), "the loop over the Connection values does not delete the tokens obtained from them from the outbound header (a header named by Connection is forwarded to the backend)")
 			continue
@@ -752,12 +804,17 @@ func (a *c03hdrAnalysis) unit(f *flow.Func, H map[types.Object]bool, depth int) 
 
 	sum := &c03hdrSum{must: map[string]bool{}, may: map[string]bool{}, lacking: map[string]*flow.State{}}
 	all := map[string]bool{}
+	var finals []*flow.State
 	for _, ex := range res.Exits {
-		if ex.Kind != flow.ExitReturn {
-			continue
+		// with `at`: only the exits that passed the store (the stored map is the local clone,
+		// deletions after the store still act on the outbound header)
+		if ex.Kind == flow.ExitReturn && (at == nil || ex.State.Is("ev:at", flow.True)) {
+			finals = append(finals, ex.State)
 		}
+	}
+	for _, st := range finals {
 		sum.exits++
-		for _, fa := range ex.State.Facts() {
+		for _, fa := range st.Facts() {
 			if len(fa) > 5 && fa[:3] == "ev:" && fa[len(fa)-2:] == "=T" {
 				all[fa[:len(fa)-2]] = true
 			}
@@ -777,16 +834,13 @@ func (a *c03hdrAnalysis) unit(f *flow.Func, H map[types.Object]bool, depth int) 
 			continue
 		}
 		must := sum.exits > 0
-		for _, ex := range res.Exits {
-			if ex.Kind != flow.ExitReturn {
-				continue
-			}
-			if ex.State.Is(ev, flow.True) {
+		for _, st := range finals {
+			if st.Is(ev, flow.True) {
 				sum.may[ev] = true
 			} else {
 				must = false
 				if sum.lacking[ev] == nil {
-					sum.lacking[ev] = ex.State
+					sum.lacking[ev] = st
 				}
 			}
 		}
@@ -800,4 +854,47 @@ func (a *c03hdrAnalysis) unit(f *flow.Func, H map[types.Object]bool, depth int) 
 		}
 	}
 	return sum
+}
+
+// c03emptyColl: the collection expression is known to be empty / nil in the state (facts of a
+// guard such as `if len(xs) == 0 { return }` or `if len(xs) > 0 { for … }`).
+func c03emptyColl(f *flow.Func, st *flow.State, coll ast.Expr) bool {
+	r := f.Render(coll)
+	if st.Is("eq:len("+r+")==0", flow.True) || st.Is("lt:0<len("+r+")", flow.False) || st.Is("lt:len("+r+")<1", flow.True) || st.Is("nil:"+r, flow.True) {
+		return true
+	}
+	return false
+}
+
+// c03HeaderInline decides R-C03-1..3 when the header function has been inlined into the
+// request builder: the local s.local = <inbound header>.Clone() is stripped in the builder and
+// then stored; the hop-by-hop obligations are evaluated in the states reaching the store.
+func c03HeaderInline(c *core.Ctx, s *c03hdrStore) {
+	f := s.f
+	name := c03fnName(f)
+	H := map[types.Object]bool{s.local: true}
+	c.Discharge("R-C03-3", name+"|mutations act on a clone", pos(c, s.assign), "the stored header is a local Clone()")
+	c.Discharge("R-C03-3", name+"|returns the clone", pos(c, s.assign), "the local clone itself is stored as the outbound header")
+	a := &c03hdrAnalysis{c: c, memo: map[*types.Func]*c03hdrSum{}, busy: map[*types.Func]bool{}}
+	sum := a.unitAt(f, H, 0, s.assign)
+	if sum == nil {
+		return
+	}
+	for _, k := range c03hopRequired {
+		ev := "ev:del:" + k
+		c.Check(sum.must[ev], "R-C03-1", name+"|deletes "+k, pos(c, s.assign),
+			sprintf("deleted from the outbound header on all %d exits after the store", sum.exits),
+			"hop-by-hop header "+k+" is not removed from the outbound header on every path: the backend receives the client's "+k+" header", witness(sum.lacking[ev])...)
+	}
+	if a.loops == 0 {
+		c.Violate("R-C03-2", name+"|Connection-listed headers deleted", pos(c, s.assign),
+			"no loop over the values of the Connection header deletes the headers it names: a header listed by the client in Connection (RFC 7230 §6.1) is forwarded to the backend")
+	} else {
+		c.Check(sum.must[c03evListed], "R-C03-2", name+"|Connection-listed headers deleted", pos(c, s.assign),
+			"every non-empty Connection token is deleted from the outbound header on all paths",
+			"on some path the headers named by Connection are not deleted from the outbound header", witness(sum.lacking[c03evListed])...)
+	}
+	c.Check(!sum.may[c03evBadOrder], "R-C03-2", name+"|Connection read before it is deleted", pos(c, s.assign),
+		"the Connection values are read while Connection is still present",
+		"the Connection values are read from a header from which Connection has already been deleted: the loop sees no tokens and Connection-listed headers reach the backend")
 }
